@@ -53,8 +53,4 @@ let () =
     | "hist" :: ops ->
         let h = List.map (fun f -> op_of (dec_bytes f)) ops in
         print_endline (String.concat " | " (List.map snap (trace init_rst h)))
-    | ["bs"; l; x] ->
-        (match binary_search (ints_of (dec_bytes l)) (z_of_int (int_of_string (dec_bytes x))) with
-         | Inl i -> Printf.printf "Ok(%d)\n" (int_of_nat i)
-         | Inr i -> Printf.printf "Err(%d)\n" (int_of_nat i))
     | _ -> print_endline "?bad-case") Sys.argv.(1)
